@@ -1478,6 +1478,13 @@ func (r *nnResult) transfer(st map[nnKey]bool, ins ssa.Instruction) {
 		switch v := x.Val.(type) {
 		case *ssa.Alloc:
 			st[k] = true
+		case *ssa.Call:
+			// the answer of a function every return of which is a fresh object (`cloneFor`, a constructor)
+			if g := v.Common().StaticCallee(); g != nil && returnsFreshOnly(g, 0) {
+				st[k] = true
+			} else {
+				delete(st, k)
+			}
 		case *ssa.UnOp:
 			// copy of another component known to be non-nil
 			if fa2, ok := v.X.(*ssa.FieldAddr); ok && st[nnKey{fa2.X, fieldElem(fa2.X.Type(), fa2.Field)}] {
@@ -1491,7 +1498,7 @@ func (r *nnResult) transfer(st map[nnKey]bool, ins ssa.Instruction) {
 		// the same field of other bases may alias: a store through another base value kills nothing else (distinct
 		// SSA bases are distinct variables; aliasing objects would only make a non-nil claim about the other stale
 		// if this store wrote nil)
-		if _, isAlloc := x.Val.(*ssa.Alloc); !isAlloc {
+		if _, isAlloc := x.Val.(*ssa.Alloc); !isAlloc && !st[k] {
 			for k2 := range st {
 				if nnPlainEl(k2.el) == el && (k2.base != fa.X || k2.el != el) {
 					delete(st, k2)
@@ -1863,4 +1870,30 @@ func loadOfAnyField(v ssa.Value, p *ssa.Parameter) (string, bool) {
 		return "", false
 	}
 	return fieldElem(fa.X.Type(), fa.Field), true
+}
+
+// returnsFreshOnly: every return of g (single pointer result) is an allocation made in g, or the answer of a function
+// of which the same holds.
+func returnsFreshOnly(g *ssa.Function, depth int) bool {
+	if g == nil || len(g.Blocks) == 0 || depth > 2 || g.Signature.Results().Len() != 1 {
+		return false
+	}
+	n := 0
+	for _, b := range g.Blocks {
+		r, ok := b.Instrs[len(b.Instrs)-1].(*ssa.Return)
+		if !ok {
+			continue
+		}
+		n++
+		switch v := r.Results[0].(type) {
+		case *ssa.Alloc:
+		case *ssa.Call:
+			if !returnsFreshOnly(v.Common().StaticCallee(), depth+1) {
+				return false
+			}
+		default:
+			return false
+		}
+	}
+	return n > 0
 }
